@@ -40,3 +40,15 @@ Definition keys (m : smap) : list bytes := map fst m.
 (* union, the first map winning on common keys *)
 Definition overlay (top bottom : smap) : smap :=
   fold_right (fun p m => insert (fst p) (snd p) m) bottom top.
+
+(* merge of two sorted lists, the first winning ties: what the iterator is meant to produce *)
+Fixpoint merge (l1 : smap) : smap -> smap :=
+  fix merge2 (l2 : smap) : smap :=
+    match l1, l2 with
+    | [], _ => l2
+    | _, [] => l1
+    | (k1, v1) :: r1, (k2, v2) :: r2 =>
+        if ltb k1 k2 then (k1, v1) :: merge r1 l2
+        else if ltb k2 k1 then (k2, v2) :: merge2 r2
+        else (k1, v1) :: merge r1 r2
+    end.
